@@ -244,6 +244,10 @@ func (matrix *DenseIntMatrix) AsVector() Vector {
   return DenseIntVector(matrix.values)
 }
 func (matrix *DenseIntMatrix) storageLocation() uintptr {
+  if len(matrix.values) == 0 {
+    // no storage to point into: the matrix header identifies an empty matrix
+    return uintptr(unsafe.Pointer(matrix))
+  }
   return uintptr(unsafe.Pointer(&matrix.values[0]))
 }
 /* const interface
